@@ -358,6 +358,11 @@ func (sc *ArshalMarshal) Run(t *core.Tape, env *Env) (any, []core.Violation) {
 			e3, p3, _, _ := guarded(func() error { return json.MarshalWrite(sw3, []any{"after", 1}, opts...) })
 			st.Steps++
 			if !p3 && e3 == nil {
+				if want3, err3 := json.Marshal([]any{"after", 1}, opts...); err3 == nil && !bytes.Equal(sw3.Got, want3) {
+					if report("C07", "C07/marshalwrite-after-failed-marshalwrite", writerKind2(p), "a MarshalWrite of [\"after\",1] following a failed one delivered %s, Marshal returns %s", clip(sw3.Got, 200), clip(want3, 200)) {
+						return p, viols
+					}
+				}
 				if validOne("MarshalWrite-after-failed-MarshalWrite", sw3.Got, false) {
 					return p, viols
 				}
